@@ -208,7 +208,9 @@ pub fn eval_net(ctx: &Ctx, srv: &crate::fw::net::Server, c: &NetCase) -> Verdict
 pub fn run(ctx: &Ctx) {
     crate::fw::inproc::init_env();
     let _tree = match fixed_docroot() { Ok(t) => t, Err(e) => { ctx.inconclusive(&format!("docroot: {}", e)); return; } };
+    super::common::binary_begin(ctx, &_tree.root);
     ctx.prop("responses", ctx.share(ctx.scale(24_000, 2_000_000)), server_case_strategy(true), |c| eval_response(ctx, c));
+    super::common::binary_end(ctx);
     let ts = (request_pool(), script_strategy(), proptest::bool::weighted(0.1), proptest::bool::weighted(0.05), proptest::bool::weighted(0.2))
         .prop_map(|(request, script, flush_err, read_err, legacy)| TransportCase { request, script, flush_err, read_err, legacy });
     ctx.prop("transport", ctx.share(ctx.scale(24_000, 1_000_000)), ts, |c| eval_transport(ctx, c));
@@ -237,6 +239,7 @@ pub fn run(ctx: &Ctx) {
 pub fn replay(ctx: &Ctx, section: &str, case: &Value) -> Verdict {
     crate::fw::inproc::init_env();
     let _tree = match fixed_docroot() { Ok(t) => t, Err(e) => return Verdict::fail("replay-docroot-failed", e.to_string()) };
+    if super::common::replay_wants_binary(case) { super::common::binary_begin(ctx, &_tree.root); }
     if section == "transport-binary" {
         let srv = match crate::fw::net::Server::start(&crate::fw::net::ServerOpts::new(&_tree.root, 2)) { Ok(s) => s, Err(e) => return Verdict::fail("replay-binary-did-not-start", e) };
         return match serde_json::from_value::<NetCase>(case.clone()) { Ok(c) => eval_net(ctx, &srv, &c), Err(e) => Verdict::fail("replay-unreadable", e.to_string()) };
